@@ -1330,11 +1330,12 @@ func (store *KeyStore) destroyRotatedKeyByIndex(path string, index int) error {
 
 	// 1 is always index of current key of the keystore
 	// all rotated keys have index after 1
-	if len(rotatedKeyFiles) == 0 || index > len(rotatedKeyFiles)+1 {
+	// (the listing numbers the files of the history directory from 2, in directory order)
+	if len(rotatedKeyFiles) == 0 || index < 2 || index > len(rotatedKeyFiles)+1 {
 		return ErrInvalidIndex
 	}
 
-	rotatedKey := rotatedKeyFiles[index-1]
+	rotatedKey := rotatedKeyFiles[index-2]
 	err = store.fs.Remove(filepath.Join(oldDir, rotatedKey.Name()))
 	if err != nil && !os.IsNotExist(err) {
 		return err
